@@ -27,6 +27,14 @@ impl Access {
         }
     }
 
+    /// Records an access in a set of accesses that are not ordered with each
+    /// other (at most one per thread): accesses that happen-before the new one
+    /// are subsumed by it and dropped.
+    pub(crate) fn set_in_unordered(accesses: &mut Vec<Self>, path_id: usize, version: &VersionVec) {
+        accesses.retain(|access| !access.happens_before(version));
+        accesses.push(Access::new(path_id, version));
+    }
+
     /// Location in the path
     pub(crate) fn path_id(&self) -> usize {
         self.path_id
